@@ -241,7 +241,7 @@ func (c *converter) ProgramEnd() error {
 	if c.echoHelperRequired {
 		v := c.varEvaluationString(funcArgVar(0), true)
 		c.addHelper("echo", echoHelper,
-			fmt.Sprintf(`if "%s" neq "" (echo %s) else echo.`, v, v), // echo. could be problematic (see discussion: https://stackoverflow.com/a/20691061).
+			fmt.Sprintf(`echo(%s`, v), // "echo(" also prints empty values, blanks and the words on/off as they are (see discussion: https://stackoverflow.com/a/20691061).
 		)
 	}
 	c.addEndLine(":end")
